@@ -68,6 +68,10 @@ CLAIMED["C17"] = ("model_checking", "5 C17",
     "decompose_tagmarkup on markup trees with symbolic leaves and solver-chosen tags; Text.render with symbolic attribute run lengths and solver-chosen character classes "
     "(per-byte attribute of every output cell compared with the source character's attribute); fill_attr_apply / AttrMap chains; SGR sequences of the real Screen decoded by an SGR reader.",
     "z3 trusted; text length <= 3, width <= 3 (quick) / 5; the SGR decoder in the harness is part of the trusted base.")
+CLAIMED["C04"] = ("model_checking", "5 C04",
+    "The real Screen.draw_screen runs two-frame histories (optionally clear() / resize between) on canvases whose cells are symbolic bytes with solver-chosen attribute and "
+    "charset runs and cursor; the written tokens are interpreted by an independent terminal model and every cell, the cursor and the no-scroll condition are discharged per path.",
+    "z3 trusted; screens up to 3x2 (quick) / 4x2, 3x3; models/term.py is part of the trusted base; HTML back-end, wide characters and partial-screen mode outside.")
 NOT_YET = {}
 TECH = "bounded symbolic execution of the real urwid code (AST-lifted import of /repo) with z3 deciding every path obligation; counterexamples replayed on the un-lifted code"
 def main():
